@@ -1112,6 +1112,9 @@ fn pcf_map(schema: &Map<String, JsonValue>, defined_names: &mut HashSet<String>)
             || k == "doc"
             || k == "aliases"
             || k == "logicalType"
+            || k == "order"
+            || k == "precision"
+            || k == "scale"
         {
             continue;
         }
